@@ -57,6 +57,45 @@ pub fn gen(tier: &str, seed: u64, emit: &mut dyn FnMut(String)) {
                 emit(dmx_case(0, "", &[m.bytes()]));
             }
         }
+        // (e) three steps: the applied table T; something that makes the de-duplication layer forget T's version (a damaged
+        // section with another version, or a start packet whose pointer_field is out of range); then T again with only body
+        // bytes damaged (header and CRC_32 field intact)
+        for (which, sect) in [(0u8, &pat0), (1u8, &pmt0)] {
+            for _ in 0..(if big { 30 } else { 8 }) {
+                let pid = if which == 0 { 0 } else { pmt_pid };
+                let mut bad = sect.clone();
+                let body_end = bad.len() - 4;
+                for _ in 0..rng.range(1, 3) { let k = 8 + rng.below((body_end - 8) as u64) as usize; bad[k] ^= 1 << rng.below(8); }
+                if crc32_mpeg(&bad) == 0 { continue; }
+                let mut m = Mux::new();
+                m.psi(0, &pat0, 0, 0, &mut rng);
+                m.psi(pmt_pid, &pmt0, 0, if multi { 1 } else { 0 }, &mut rng);
+                if rng.chance(1, 2) { let mut x = if which == 0 { pat1.clone() } else { pmt1.clone() }; let k = 8 + rng.below((x.len() - 12) as u64) as usize; x[k] ^= 0x10; m.psi(pid, &x, 0, 0, &mut rng); }
+                else { let mut pl = vec![200u8]; pl.extend(rng.bytes(183)); m.data_packet(pid, true, &pl, &mut rng); }
+                m.psi(pid, &bad, 0, if multi { rng.below(2) } else { 0 }, &mut rng);
+                for p in [pmt_pid, new_pid, pids[2], pids[3], *pids.last().unwrap()] { let pl = rng.bytes(184); let cc = rng.below(16) as u8; m.pkts.push(ts_packet(p, false, cc, false, 0, None, &pl)); }
+                emit(dmx_case(0, "", &[m.bytes()]));
+            }
+        }
+        // (d) a next-version table whose CRC_32 field holds a value that "means something": zero, all ones, the first or last four
+        // bytes of the section, the CRC of the section without / with its own first byte — none of them is its checksum
+        for (which, sect) in [(0u8, &pat1), (1u8, &pmt1)] {
+            let n = sect.len();
+            let body = &sect[..n - 4];
+            let cands: Vec<[u8; 4]> = vec![[0, 0, 0, 0], [0xff; 4], [sect[0], sect[1], sect[2], sect[3]], [sect[n - 8], sect[n - 7], sect[n - 6], sect[n - 5]],
+                                          crc32_mpeg(&body[1..]).to_be_bytes(), (!crc32_mpeg(body)).to_be_bytes(), crc32_mpeg(body).to_le_bytes()];
+            for c in cands {
+                let mut bad = sect.clone(); bad[n - 4..].copy_from_slice(&c);
+                if crc32_mpeg(&bad) == 0 { continue; }
+                let mut m = Mux::new();
+                m.psi(0, &pat0, 0, 0, &mut rng);
+                m.psi(pmt_pid, &pmt0, 0, if multi { 1 } else { 0 }, &mut rng);
+                let pid = if which == 0 { 0 } else { pmt_pid };
+                m.psi(pid, &bad, 0, if multi { rng.below(2) } else { 0 }, &mut rng);
+                for p in [pmt_pid, new_pid, pids[2], pids[3], *pids.last().unwrap()] { let pl = rng.bytes(184); let cc = rng.below(16) as u8; m.pkts.push(ts_packet(p, false, cc, false, 0, None, &pl)); }
+                emit(dmx_case(0, "", &[m.bytes()]));
+            }
+        }
         // (c) the table that WAS applied is re-transmitted damaged: the version bits changed (so that it is not taken
         // for a repetition) and body bytes changed, while the CRC_32 field still holds the value of the accepted copy
         for (which, sect) in [(0u8, &pat0), (1u8, &pmt0)] {
